@@ -114,7 +114,7 @@ func C03(ctx *Ctx) {
 		tabs = append(tabs, extractTable(ctx, NewWorld(ctx, rel), rel))
 	}
 	R.Floor("emitting-methods", 80)
-	R.Floor("emit-helpers", 6)
+	R.Floor("emit-helpers", 1)
 	helpers := map[*ssa.Function]bool{}
 	var names []string
 	for _, e := range ems {
